@@ -25,10 +25,10 @@ func (g *deepcopyGen) GenerateType(c gengo.Context, named *types.Named) error {
 		g.processed = map[*types.Named]bool{}
 	}
 
-	return g.generateType(c, named)
+	return g.generateType(c, named, false)
 }
 
-func (g *deepcopyGen) generateType(c gengo.Context, named *types.Named) error {
+func (g *deepcopyGen) generateType(c gengo.Context, named *types.Named, onDemand bool) error {
 	if _, ok := g.processed[named]; ok {
 		return nil
 	}
@@ -40,7 +40,8 @@ func (g *deepcopyGen) generateType(c gengo.Context, named *types.Named) error {
 	}
 
 	tags, _ := c.Doc(named.Obj())
-	if !gengo.IsGeneratorEnabled(g, tags) {
+	// a type another generated type copies through is needed whatever its own tags say
+	if !onDemand && !gengo.IsGeneratorEnabled(g, tags) {
 		return nil
 	}
 
@@ -140,7 +141,7 @@ func (in *@Type) DeepCopyInto(out *@Type) {
 	}
 
 	for i := range defers {
-		if err := g.generateType(c, defers[i]); err != nil {
+		if err := g.generateType(c, defers[i], true); err != nil {
 			return err
 		}
 	}
